@@ -168,7 +168,7 @@ impl World {
     }
 }
 
-// HARNESS props=C01,C02,C08 tier=thorough profile=gw_e2ea shape="approve_messages end to end: batch M=1, signer set N=1, nothing stubbed; observed through is_message_approved"
+// PROBE (not registered: CBMC exceeds the 14 GB cap after ~20 min; kept for a larger machine) props=C01,C02,C08 profile=gw_e2ea shape="approve_messages end to end: batch M=1, signer set N=1, nothing stubbed; observed through is_message_approved"
 #[kani::proof]
 fn c01_approve_end_to_end() {
     let w = world1();
@@ -191,7 +191,7 @@ fn c01_approve_end_to_end() {
     }
 }
 
-// HARNESS props=C01,C03,C08,C09,C06 tier=thorough profile=gw_e2er shape="rotate_signers end to end: candidate N=1, authorising set N=1, bypass symbolic, nothing stubbed; observed through epoch() and the lookups"
+// PROBE (not registered: CBMC exceeds the 14 GB cap; kept for a larger machine) props=C01,C03,C08,C09,C06 profile=gw_e2er shape="rotate_signers end to end: candidate N=1, authorising set N=1, bypass symbolic, nothing stubbed; observed through epoch() and the lookups"
 #[kani::proof]
 fn c03_rotate_end_to_end() {
     let w = world1();
